@@ -10,7 +10,10 @@ the stage returned, up to the rendering (`UseTree::rewrite_top_level`, imports.r
 a tree is one thing only: a tree with an empty path is written as the empty string (imports.rs:343-349 for a
 top-level tree — no `use …;` at all —, and `write_list` skips an empty element of a nested list), so the
 parser of the second run never sees it.  `reparse*` is that erasure; everything else is read back as it was
-written (observed on the binary: `use a::{b::{}, c};` is written `use a::{ c};`, read back as `a::{c}`).
+written (observed on the pinned binary: `use a::{b::{}, c};` was written `use a::{ c};`, read back as
+`a::{c}`; since fix 343f709 `normalize` removes such an element itself and `RF.Lemmas.Idem.normPath_ne`
+proves that no result of `normalize` on a tree as the parser builds it contains one, so on those trees the
+erasure only drops top-level items with an empty path).
 -/
 namespace RF.Idem
 open RF.Imports
